@@ -19,9 +19,13 @@ ASSUMPTIONS = [
     "every complete evaluation in the history (and the final one) must equal the reference AND a freshly built copy "
     "evaluated once on the same data; row sets are compared (multiplicity is not part of this property)",
     "domains listing one object twice: the statement fixes no count, only that first and later evaluations agree",
+    "'never modifies the user's objects': every attribute of every pool object is the same object afterwards and list / tuple / "
+    "dict / set attributes hold the same elements (by identity, in order)",
 ]
-BOUNDS = {"quick": dict(prior_ops="H<=2", objects="3 (2x2 for the join template)", templates=7),
-          "thorough": dict(prior_ops="H<=3", objects="3", templates=7, caching="on and off")}
+BOUNDS = {"quick": dict(prior_ops="H<=2", objects="3 (2x2 for the join template)", templates=7,
+                        collections="2 parents x 2 elements (list / tuple), queries over concatenate / flatten / in_(x, concatenate)"),
+          "thorough": dict(prior_ops="H<=3", objects="3", templates=7, caching="on and off",
+                           collections="as quick, all histories H<=2")}
 LIMITS = {"quick": dict(max_paths=20000, max_wall=150), "thorough": dict(max_paths=300000, max_wall=900)}
 FIDELITY_EVERY = {"quick": 4, "thorough": 4}
 WALL_BUDGET = {"quick": 540, "thorough": 3400}
@@ -85,7 +89,7 @@ class C04(Case):
         events = []
         try:
             qs, sel = self._build_pair(pools, tpl, sp.get("domain", "list"))
-            dict_keys = [sorted(vars(o).keys()) for p in pools.values() for o in p]
+            dict_keys = deep_snapshot([o for p in pools.values() for o in p])
             for t, (op, qi) in enumerate(sp["history"] + [["FULL", sp.get("final", 0)]]):
                 q = qs[qi]
                 if op == "FULL":
@@ -124,7 +128,7 @@ class C04(Case):
                 same = (list(self._user_domain) == self._user_domain_copy and
                         all(a is b for a, b in zip(self._user_domain, self._user_domain_copy)))
                 events.append(["DOMAIN_UNCHANGED", bool(same)])
-            keys_now = [sorted(vars(o).keys()) for p in pools.values() for o in p]
+            keys_now = deep_snapshot([o for p in pools.values() for o in p])
             events.append(["OBJECTS_UNCHANGED", keys_now == dict_keys])
         except Exception as e:
             events.append(["exc", type(e).__name__, str(e)[:200]])
@@ -272,7 +276,161 @@ class C04Registry(Case):
         return obs or [("reached", alg.const(True))]
 
 
+def deep_snapshot(objs):
+    """identity of every attribute value and, for list/tuple/dict/set attributes, identity of their elements"""
+    snap = []
+    for o in objs:
+        row = {}
+        for k, v in vars(o).items():
+            inner = None
+            if isinstance(v, (list, tuple)):
+                inner = [id(e) for e in v]
+            elif isinstance(v, dict):
+                inner = [(id(a), id(b)) for a, b in v.items()]
+            elif isinstance(v, (set, frozenset)):
+                inner = sorted(id(e) for e in v)
+            row[k] = (id(v), inner)
+        snap.append(row)
+    return snap
+
+
+class C04Collections(Case):
+    """Scenario: queries that UNNEST / CONCATENATE list attributes of user objects (real Python lists), sharing the parent
+    variable: q1 = concatenate(p.items) as a value, q2 = rows (p, e) with e = flatten(p.items) and e.w > 0, q3 = elements of an
+    outer domain that are in concatenate(p.items).  History as in the main scenario; the user's lists must stay as built."""
+    prop = "C04"
+
+    def run(self, mk):
+        from entity_query_language import flatten, concatenate, in_
+        from props.c16 import Par, Elem
+        sp = self.spec
+        elems = [Elem(w=mk.int("e%d.w" % j), name="e%d" % j) for j in range(4)]
+        kinds = sp.get("inner", ["list", "list"])
+        chunks = [[elems[0], elems[1]], [elems[2], elems[3]]]
+        parents = [Par(k=i, items=(list(c) if kd == "list" else tuple(c)), name="p%d" % i)
+                   for i, (c, kd) in enumerate(zip(chunks, kinds))]
+        data = dict(parents=parents, elems=elems, evals=[])
+        events = []
+        snap0 = deep_snapshot(parents + elems)
+        try:
+            with symbolic_mode():
+                p = let(Par, domain=parents)
+                conc = concatenate(p.items)
+                e = flatten(p.items)
+                x = let(Elem, domain=list(elems))
+                qs = [an(entity(conc)), an(set_of([p, e], e.w > 0)), an(entity(x, in_(x, conc), x.w > 0))]
+
+            def view(qi, res):
+                ix = lambda o: next((j for j, c in enumerate(elems) if c is o), -1)
+                if qi == 0:
+                    return [[ix(o) for o in r] if isinstance(r, (list, tuple)) else ["notalist"] for r in res]
+                if qi == 1:
+                    return [[next((i for i, o in enumerate(parents) if o is r[p]), -1), ix(r[e])] for r in res]
+                return [ix(o) for o in res]
+            for t, (op, qi) in enumerate(sp["history"] + [["FULL", sp.get("final", 0)]]):
+                q = qs[qi]
+                if op == "FULL":
+                    v = view(qi, list(q.evaluate()))
+                    data["evals"].append((t, qi, v))
+                    events.append(["FULL", qi, v])
+                else:
+                    k = mk.intrange("k%d" % t, 0, 3)
+                    it = q.evaluate()
+                    taken = 0
+                    while not (k == taken):
+                        try:
+                            next(it)
+                        except StopIteration:
+                            break
+                        taken += 1
+                    if op == "TAKE":
+                        it.close()
+                    it = None
+                    events.append([op, qi, taken])
+            events.append(["OBJECTS_UNCHANGED", deep_snapshot(parents + elems) == snap0])
+        except Exception as ex:
+            events.append(["exc", type(ex).__name__, str(ex)[:200]])
+        return data, events
+
+    def obligations(self, alg, data, events):
+        obs = []
+        elems = data["elems"]
+        for ev in events:
+            if ev[0] == "exc":
+                obs.append(("no_exception:%s:%s" % (ev[1], ev[2][:80]), alg.const(False)))
+            if ev[0] == "OBJECTS_UNCHANGED":
+                obs.append(("user_objects_and_their_collections_unchanged", alg.const(ev[1])))
+        for (t, qi, v) in data["evals"]:
+            pre = "step%d:q%d:" % (t, qi + 1)
+            if qi == 0:
+                obs.append((pre + "one_value_the_ordered_concatenation", alg.const(v == [[0, 1, 2, 3]])))
+            elif qi == 1:
+                obs.append((pre + "cells", alg.const(all(i >= 0 and j >= 0 for i, j in v))))
+                for j, eo in enumerate(elems):
+                    for i in range(2):
+                        want = alg.cmp("gt", eo.w, 0) if j // 2 == i else alg.const(False)
+                        obs.append((pre + "pair_p%d_e%d" % (i, j), alg.iff(alg.const([i, j] in v), want)))
+            else:
+                obs.append((pre + "cells", alg.const(all(j >= 0 for j in v))))
+                for j, eo in enumerate(elems):
+                    obs.append((pre + "elem_%d" % j, alg.iff(alg.const(j in v), alg.cmp("gt", eo.w, 0))))
+        return obs or [("reached", alg.const(True))]
+
+
+class C04Rule(Case):
+    """Scenario: a rule tree (the C12 family) evaluated after the same query object was abandoned after k conclusions (k symbolic),
+    dropped, or evaluated completely: every complete evaluation must select the conclusions the tree prescribes."""
+    prop = "C04"
+
+    def run(self, mk):
+        from props import c12
+        sp = self.spec
+        inner = c12.C12(sp["rule"])
+        self._inner = inner
+        data = inner.prepare(mk)
+        events, evals = [], []
+        try:
+            q = inner.build(data["items"])
+            for t, op in enumerate(sp["history"] + ["FULL"]):
+                if op == "FULL":
+                    v = inner._view(list(q.evaluate()), data["items"])
+                    evals.append(v)
+                    events.append(["FULL", v])
+                else:
+                    k = mk.intrange("k%d" % t, 0, 3)
+                    it = q.evaluate()
+                    taken = 0
+                    while not (k == taken):
+                        try:
+                            next(it)
+                        except StopIteration:
+                            break
+                        taken += 1
+                    if op == "TAKE":
+                        it.close()
+                    it = None
+                    events.append([op, taken])
+        except Exception as ex:
+            events.append(["exc", type(ex).__name__, str(ex)[:200]])
+        data["evals"] = evals
+        return data, events
+
+    def obligations(self, alg, data, events):
+        obs = []
+        for ev in events:
+            if ev[0] == "exc":
+                obs.append(("no_exception:%s:%s" % (ev[1], ev[2][:80]), alg.const(False)))
+        for n, v in enumerate(data["evals"]):
+            for lbl, t in self._inner.obligations(alg, data, v):
+                obs.append(("eval%d:%s" % (n, lbl), t))
+        return obs or [("reached", alg.const(True))]
+
+
 def make_case(spec):
+    if "rule" in spec:
+        return C04Rule(spec)
+    if spec.get("scenario") == "collections":
+        return C04Collections(spec)
     if spec.get("scenario") == "registry_keyword_variable":
         return C04Registry(spec)
     return C04(spec)
@@ -310,6 +468,26 @@ def shapes(tier, seed):
     for wu in (["FULL"], ["TAKE"], ["TAKE", "FULL"]):
         out.append(dict(scenario="registry_keyword_variable", history=[], warmup=wu))
         out.append(dict(scenario="registry_keyword_variable", history=["TAKE"], warmup=wu))
+    cops = [[o, qi] for o in ("FULL", "TAKE", "DROP") for qi in (0, 1, 2)]
+    for fin in (0, 1, 2):
+        out.append(dict(scenario="collections", history=[], final=fin))
+        for op in cops:
+            out.append(dict(scenario="collections", history=[op], final=fin))
+    cpairs = list(itertools.product(cops, cops))
+    for a, b in (cpairs if tier == "thorough" else rnd.sample(cpairs, 12)):
+        out.append(dict(scenario="collections", history=[a, b], final=rnd.choice([0, 1, 2])))
+    for inner in (["tuple", "list"], ["list", "tuple"]):
+        for fin in (0, 1, 2):
+            out.append(dict(scenario="collections", history=[["FULL", 0]], final=fin, inner=inner))
+    # rule trees (every tree of the C12 grammar with <= 3 branches; pair-matching variants) after abandoned evaluations
+    from props import c12
+    for B in range(1, 4):
+        for t in c12.all_trees(B):
+            for h in (["TAKE"], ["DROP"], ["TAKE", "TAKE"], ["FULL", "TAKE"]):
+                if tier == "thorough" or B >= 2 or h == ["TAKE"]:
+                    out.append(dict(rule=dict(tree=t), history=h))
+            if len(t) == 1:
+                out.append(dict(rule=dict(tree=t, join=True), history=["TAKE"]))
     # caching disabled
     for tn in tnames:
         for op in (["TAKE", 0], ["FAULT", 0], ["DROP", 0]):
@@ -361,7 +539,25 @@ def _twin_domain_list_consumed():
     pm.extract_selected_variable_and_expression = ext
 
 
+def _twin_concatenate_into_the_users_first_list():
+    from entity_query_language import symbolic as sym
+    orig = sym.Concatenate._evaluate__
+
+    def ev(self, sources=None):
+        for out in orig(self, sources):
+            v = out[self._id_].value
+            for cv in self._child_._evaluate__(sources or {}):
+                first = cv[self._child_._id_].value
+                if isinstance(first, list):
+                    first.extend(v[len(first):])
+                break
+            yield out
+    sym.Concatenate._evaluate__ = ev
+
+
 TWINS = {
+    "concatenation_built_in_the_users_first_list": dict(apply=_twin_concatenate_into_the_users_first_list,
+                                                        specs=lambda t: [dict(scenario="collections", history=[["FULL", 0]], final=1)]),
     "no_reset_of_dedup_state_after_evaluation": dict(apply=_twin_no_reset_after_evaluation,
                                                      specs=lambda t: [dict(template="or2", history=[["FULL", 0]], final=0),
                                                                       dict(template="join", history=[["FULL", 0]], final=0)]),
